@@ -310,27 +310,38 @@ def signalFrom (mi : Nat) (s : Fw σ) : Fw σ :=
 def zeroedAOf (s : Fw σ) (mi : Nat) : Bool := match s.rt[mi]? with | some r => r.zeroedA | none => false
 def zeroedBOf (s : Fw σ) (mi : Nat) : Bool := match s.rt[mi]? with | some r => r.zeroedB | none => false
 
+/-- the operand of a counter update: the other counter's pre-transition value for `copy`,
+    otherwise the sampled value (1 without a distribution) -/
+def counterOperand (c : Counter) (other : Nat) (s : Fw σ) : Nat × Fw σ :=
+  if c.copy then (other, s) else sampleValue ρ c s
+
+/-- store the new value of counter A and raise "zeroed" if it went from non-zero to zero and this
+    machine's flag for A is still unset -/
+def storeCounterA (mi : Nat) (oldA newA : Nat) (s : Fw σ) : Fw σ × Bool :=
+  let s := s.modRt mi (fun r => { r with counterA := newA })
+  if oldA ≠ 0 && newA = 0 && !zeroedAOf s mi then (s.modRt mi (fun r => { r with zeroedA := true }), true)
+  else (s, false)
+
+def storeCounterB (mi : Nat) (oldB newB : Nat) (s : Fw σ) : Fw σ × Bool :=
+  let s := s.modRt mi (fun r => { r with counterB := newB })
+  if oldB ≠ 0 && newB = 0 && !zeroedBOf s mi then (s.modRt mi (fun r => { r with zeroedB := true }), true)
+  else (s, false)
+
 /-- counter A part of `update_counter`; returns the new framework and whether A was zeroed -/
 def applyCounterA (mi : Nat) (c : Option Counter) (oldA oldB : Nat) (s : Fw σ) : Fw σ × Bool :=
   match c with
   | none => (s, false)
   | some c =>
-    let (change, s) := if c.copy then (oldB, s) else sampleValue ρ c s
-    let newA := applyOp c.operation oldA change
-    let s := s.modRt mi (fun r => { r with counterA := newA })
-    if oldA ≠ 0 && newA = 0 && !zeroedAOf s mi then (s.modRt mi (fun r => { r with zeroedA := true }), true)
-    else (s, false)
+    let p := counterOperand ρ c oldB s
+    storeCounterA mi oldA (applyOp c.operation oldA p.1) p.2
 
 /-- counter B part of `update_counter` -/
 def applyCounterB (mi : Nat) (c : Option Counter) (oldA oldB : Nat) (s : Fw σ) : Fw σ × Bool :=
   match c with
   | none => (s, false)
   | some c =>
-    let (change, s) := if c.copy then (oldA, s) else sampleValue ρ c s
-    let newB := applyOp c.operation oldB change
-    let s := s.modRt mi (fun r => { r with counterB := newB })
-    if oldB ≠ 0 && newB = 0 && !zeroedBOf s mi then (s.modRt mi (fun r => { r with zeroedB := true }), true)
-    else (s, false)
+    let p := counterOperand ρ c oldA s
+    storeCounterB mi oldB (applyOp c.operation oldB p.1) p.2
 
 /-- current value of counter A of machine `mi` (0 if there is no such machine) -/
 def counterAOf (s : Fw σ) (mi : Nat) : Nat := match s.rt[mi]? with | some r => r.counterA | none => 0
